@@ -522,7 +522,7 @@ class QvmCode(BaseCode):
             for label, data in self._data.items():
                 s += f'{label}:\n'
                 for item in data:
-                    item = '<EMPTY>' if item == Empty.value else ''
+                    item = '<EMPTY>' if item == Empty.value else item
                     s += f'    {item}\n'
             s += '\n;;;;;;;;;;;;;;;;;;;;;;;;;;;;;;\n'
 
